@@ -65,4 +65,68 @@ theorem total_record_count_is_written (m : Model) (f f' : File Vals) (h : fileCr
     f'.control.i "TotalRecordCount" = (f'.flatten.length : Int) := by
   rw [(file_control_recount m f f' h).2.1, file_count_eq_flatten f' hw]
 
+@[simp] theorem setD_i (v : Vals) (k k' : String) (x : Date) : (v.setD k x).i k' = v.i k' := rfl
+
+/-- every bundle that `CashLetter.build` produces carries a recounted control record -/
+theorem buildBundles_controls (m : Model) : ∀ (n : Nat) (bs bs' : List (Bundle Vals)), buildBundles m n bs = .ok bs' →
+    ∀ b' ∈ bs', ∃ bc, b'.control = some bc ∧
+      bc.i "BundleItemsCount" = (recountBundle b').items ∧ bc.i "BundleTotalAmount" = (recountBundle b').amount ∧
+      bc.i "MICRValidTotalAmount" = (recountBundle b').micrValid ∧ bc.i "BundleImagesCount" = (recountBundle b').images
+  | _, [], bs', h, b', hb' => by
+    simp only [buildBundles, Except.ok.injEq] at h
+    subst h
+    simp at hb'
+  | n, b :: r, bs', h, b', hb' => by
+    simp only [buildBundles] at h
+    split at h
+    · cases h
+    · split at h
+      · cases h
+      · split at h
+        · cases h
+        · rename_i b2 hb2
+          split at h
+          · cases h
+          · rename_i rs hrs
+            simp only [Except.ok.injEq] at h
+            subst h
+            simp only [List.mem_cons] at hb'
+            rcases hb' with hb' | hb'
+            · subst hb'
+              obtain ⟨h1, h2, _, bc, hbc, e1, e2, e3, e4, _⟩ := bundle_control_recount m _ _ hb2
+              refine ⟨bc, hbc, ?_, ?_, ?_, ?_⟩
+              · rw [e1]; simp [recountBundle, h1, h2]
+              · rw [e2]; simp [recountBundle, h1, h2]
+              · rw [e3]; simp [recountBundle, h1]
+              · rw [e4]; simp [recountBundle, h1, h2]
+            · exact buildBundles_controls m (n + 1) r rs hrs b' hb'
+
+/-- **cash letter control = recount**: bundle count, items (checks + returns + credit items, the latter
+present exactly when CreditTotalIndicator is 1), amount, image count - over the bundles of the built
+cash letter; and every bundle control of the built cash letter is a recount (above) -/
+theorem cashLetter_control_recount (m : Model) (cl cl' : CashLetter Vals) (h : cashLetterBuild m cl = .ok cl') :
+    cl'.creditItems = cl.creditItems ∧ cl'.credits = cl.credits ∧ cl'.rns = cl.rns ∧ cl'.header = cl.header ∧
+    buildBundles m 1 cl.bundles = .ok cl'.bundles ∧
+    ∃ c, cl'.control = some c ∧
+      c.i "CashLetterBundleCount" = (cl'.bundles.length : Int) ∧
+      c.i "CashLetterItemsCount" =
+        (((cl'.bundles.flatMap (fun b => b.checks ++ b.returns)).length + cl'.creditItems.length : Nat) : Int) ∧
+      c.i "CashLetterTotalAmount" = sumInt ((cl'.bundles.flatMap (fun b => b.checks ++ b.returns)).map (fun i => i.detail.i "ItemAmount")) ∧
+      c.i "CashLetterImagesCount" = sumInt ((cl'.bundles.flatMap (fun b => b.checks ++ b.returns)).map (fun i => (i.ivDetail.length : Int))) ∧
+      c.i "CreditTotalIndicator" = (if cl'.creditItems.isEmpty then 0 else 1) := by
+  unfold cashLetterBuild at h
+  split at h
+  · cases h
+  · split at h
+    · cases h
+    · split at h
+      · cases h
+      · split at h
+        · cases h
+        · rename_i bs hbs
+          simp only [Except.ok.injEq] at h
+          subst h
+          refine ⟨rfl, rfl, rfl, rfl, hbs, _, rfl, ?_, ?_, ?_, ?_, ?_⟩ <;>
+            (cases hc : cl.control <;> simp [hc] <;> (try split) <;> simp)
+
 end Icl.C06
